@@ -235,10 +235,14 @@ def r4_uniform(rep, facts):
         n += 1
         first = None
         stmts = b['body'].get('stmts', []) + ([b['body']['expr']] if b['body'].get('expr') else [])
-        if stmts:
-            s0 = peel(stmts[0])
+        # the Spanned test comes before anything that looks at the target's name or fields; plain `let` bindings (a span read into a local) may precede it
+        for s_ in stmts:
+            s0 = peel(s_)
+            if s0.get('k') in ('let', 'semi') and s0.get('k') == 'let':
+                continue
             if s0.get('k') == 'if' and any(last_seg(c) == 'is_spanned' for x in calls_in(s0['cond']) for c in callee_all(x)):
                 first = s0
+            break
         ok = False
         detail = 'is_spanned is not the first test'
         if first is not None:
